@@ -28,7 +28,7 @@ func runExtreme(b *harness.B) {
 		}
 		return z
 	}
-	n := b.Pick(2000, 40000)
+	n := b.Pick(2000, 30000)
 	for i := 0; i < n; i++ {
 		hp := rhp4.HostPrices{TipHeight: 10 + r.Uint64N(100), ValidUntil: farFuture}
 		// one price is huge, the others ordinary
@@ -37,12 +37,28 @@ func runExtreme(b *harness.B) {
 		huge := fromBig(new(big.Int).Add(new(big.Int).Lsh(one, hb), toBig(randCurrency(r, int(hb)-1))))
 		hp.StoragePrice, hp.Collateral, hp.IngressPrice, hp.EgressPrice, hp.FreeSectorPrice = randCurrency(r, 30), randCurrency(r, 30), randCurrency(r, 30), randCurrency(r, 30), randCurrency(r, 30)
 		*[]*types.Currency{&hp.StoragePrice, &hp.Collateral, &hp.IngressPrice, &hp.EgressPrice, &hp.FreeSectorPrice}[which] = huge
+		// the first three cases are fixed minimal witnesses (one sector, one huge price, all else zero)
+		minimal := i < 3
+		if minimal {
+			hp = rhp4.HostPrices{TipHeight: 10, ValidUntil: farFuture}
+			switch i {
+			case 0:
+				which, hp.StoragePrice = 0, pow2(107) // x 2^22 bytes overflows already
+			case 1:
+				which, hp.EgressPrice = 3, pow2(117) // x 4096 bytes
+			case 2:
+				which, hp.FreeSectorPrice = 4, pow2(127) // x 2 sectors
+			}
+		}
 		hp.Signature = host.sk.SignHash(hp.SigHash())
 		if err := hp.Validate(host.pk); err != nil {
 			b.Inconclusive("extreme price table not admitted: " + errClass(err))
 			continue
 		}
 		params := rhp4.RPCFormContractParams{RenterPublicKey: renter.pk, RenterAddress: renter.addr, Allowance: randCurrency(r, 100).Add(types.NewCurrency64(1)), Collateral: randCurrency(r, 100), ProofHeight: hp.TipHeight + 18 + r.Uint64N(1000)}
+		if minimal {
+			params.Allowance, params.Collateral, params.ProofHeight = types.Siacoins(1), types.ZeroCurrency, hp.TipHeight+18
+		}
 		var fc types.V2FileContract
 		if p, _ := call(func() { fc, _ = rhp4.NewContract(hp, params, host.pk, host.addr) }); p {
 			continue
@@ -51,7 +67,16 @@ func runExtreme(b *harness.B) {
 		if r.IntN(2) == 0 {
 			sectors = 1 + r.Uint64N(100)
 		}
-		fc.Filesize, fc.Capacity = sectors*sectorSize, sectors*sectorSize // as left by an earlier append
+		if minimal {
+			sectors = 2
+		}
+		// the data is put there by the real helper under an earlier, free price table
+		cheap := rhp4.HostPrices{TipHeight: hp.TipHeight, ValidUntil: farFuture}
+		var aerr error
+		if p, _ := call(func() { fc, _, aerr = rhp4.ReviseForAppendSectors(fc, cheap, types.Hash256{3}, sectors) }); p || aerr != nil {
+			b.Inconclusive("overflow family: preparatory append failed")
+			continue
+		}
 		duration := fc.ExpirationHeight - hp.TipHeight
 		type tc struct {
 			helper     string
@@ -63,6 +88,9 @@ func runExtreme(b *harness.B) {
 		switch which {
 		case 0, 1, 2:
 			k := 1 + r.Uint64N(rhp4.MaxSectorBatchSize)
+			if minimal {
+				k = 1
+			}
 			req := rhp4.RPCAppendSectorsRequest{Prices: hp, Sectors: sectorPool[:k]}
 			if req.Validate(host.pk) != nil {
 				continue
@@ -75,6 +103,9 @@ func runExtreme(b *harness.B) {
 			}, map[string]any{"appended": k}})
 		case 3:
 			length := 1 + r.Uint64N(sectors)
+			if minimal {
+				length = 1
+			}
 			req := rhp4.RPCSectorRootsRequest{Prices: hp, Length: length}
 			if req.Validate(host.pk, fc) != nil {
 				continue
@@ -85,6 +116,9 @@ func runExtreme(b *harness.B) {
 			}, map[string]any{"length": length}})
 		case 4:
 			k := 1 + r.Uint64N(min(sectors, 4096))
+			if minimal {
+				k = 2
+			}
 			idx := make([]uint64, k)
 			for j := range idx {
 				idx[j] = uint64(j)
